@@ -32,7 +32,9 @@ Dispatch ==
       [] a = "cloneNode" -> CloneNode(A(1), A(2) = 1)
       [] a = "importNode" -> ImportNode(A(1), A(2), A(3) = 1)
       [] a = "adoptNode" -> AdoptNode(A(1), A(2))
-      [] a = "setAttribute" -> SetAttribute(A(1), nm, s)
+      [] a = "setAttribute" -> IF nm = BadName THEN SetAttributeBadName(A(1), s) ELSE SetAttribute(A(1), nm, s)
+      [] a = "renameNode" -> RenameNode(A(1), A(2), nm)
+      [] a = "renameNodeNS" -> RenameNodeNS(A(1), A(2), nm)
       [] a = "removeAttribute" -> RemoveAttribute(A(1), nm)
       [] a = "setAttributeNode" -> SetAttributeNode(A(1), A(2))
       [] a = "removeAttributeNode" -> RemoveAttributeNode(A(1), A(2))
